@@ -62,3 +62,96 @@ spec fn wf<R: Reader<Offset = usize>, S: EvaluationStorage<R>>(a: Evaluation<R, 
     &&& inside(a.bytecode.rv(), a.pc.rv())
     &&& forall|i: int| 0 <= i < a.expression_stack@.len() ==> inside((#[trigger] a.expression_stack@[i]).1.rv(), a.expression_stack@[i].0.rv())
 }
+
+/// the request handed to the caller is the one belonging to the continuation the machine stored
+spec fn request_matches<R: Reader<Offset = usize>>(w: EvaluationWaiting<R>, r: EvaluationResult<R>) -> bool {
+    match w {
+        EvaluationWaiting::Memory => r is RequiresMemory,
+        EvaluationWaiting::Register { .. } => r is RequiresRegister,
+        EvaluationWaiting::FrameBase { .. } => r is RequiresFrameBase,
+        EvaluationWaiting::Tls => r is RequiresTls,
+        EvaluationWaiting::Cfa => r is RequiresCallFrameCfa,
+        EvaluationWaiting::AtLocation => r is RequiresAtLocation,
+        EvaluationWaiting::EntryValue => r is RequiresEntryValue,
+        EvaluationWaiting::ParameterRef => r is RequiresParameterRef,
+        EvaluationWaiting::RelocatedAddress => r is RequiresRelocatedAddress,
+        EvaluationWaiting::IndexedAddress => r is RequiresIndexedAddress,
+        EvaluationWaiting::TypedLiteral { .. } => r is RequiresBaseType,
+        EvaluationWaiting::Convert => r is RequiresBaseType,
+        EvaluationWaiting::Reinterpret => r is RequiresBaseType,
+        EvaluationWaiting::WasmValue => r is RequiresWasmLocal || r is RequiresWasmGlobal || r is RequiresWasmStack,
+    }
+}
+
+/// configuration that no evaluation step changes
+spec fn config_same<R: Reader<Offset = usize>, S: EvaluationStorage<R>>(a: Evaluation<R, S>, b: Evaluation<R, S>) -> bool {
+    &&& b.encoding == a.encoding
+    &&& b.object_address == a.object_address
+    &&& b.max_iterations == a.max_iterations
+    &&& b.addr_mask == a.addr_mask
+}
+
+/// iteration budget (C01/C07): with a limit m the counter never exceeds max(old, m) + 1
+pub open spec fn budget_bound(old_iteration: u32, max: Option<u32>, iteration: u32) -> bool {
+    max matches Some(m) ==> iteration <= (if old_iteration > m { old_iteration } else { m }) + 1
+}
+
+/// what `end_of_expression` (return from finished DW_OP_call* callees) leaves alone
+spec fn frame_eoe<R: Reader<Offset = usize>, S: EvaluationStorage<R>>(a: Evaluation<R, S>, b: Evaluation<R, S>) -> bool {
+    &&& config_same(a, b)
+    &&& b.iteration == a.iteration
+    &&& b.state == a.state
+    &&& b.stack == a.stack
+    &&& b.value_result == a.value_result
+    &&& b.result == a.result
+}
+
+spec fn only_state_changed<R: Reader<Offset = usize>, S: EvaluationStorage<R>>(a: Evaluation<R, S>, b: Evaluation<R, S>) -> bool {
+    &&& config_same(a, b)
+    &&& b.iteration == a.iteration
+    &&& b.stack == a.stack
+    &&& b.value_result == a.value_result
+    &&& b.result == a.result
+    &&& b.pc == a.pc
+    &&& b.bytecode == a.bytecode
+    &&& b.expression_stack == a.expression_stack
+}
+
+/// public ghost mirror of the (private) `EvaluationState` / `EvaluationWaiting`, so that the documented call protocol of
+/// the pub API can be written as `requires`
+pub ghost enum Phase {
+    Start(Option<u64>), Ready, Failed(Error), Complete,
+    WaitMemory, WaitRegister { offset: i64 }, WaitFrameBase { offset: i64 }, WaitTls, WaitCfa, WaitAtLocation, WaitEntryValue,
+    WaitParameterRef, WaitRelocatedAddress, WaitIndexedAddress, WaitTypedLiteral, WaitConvert, WaitReinterpret, WaitWasmValue,
+}
+
+impl Phase {
+    pub open spec fn waiting(self) -> bool {
+        !(self is Start || self is Ready || self is Failed || self is Complete)
+    }
+}
+
+spec fn phase_of<R: Reader<Offset = usize>>(s: EvaluationState<R>) -> Phase {
+    match s {
+        EvaluationState::Start(v) => Phase::Start(v),
+        EvaluationState::Ready => Phase::Ready,
+        EvaluationState::Error(e) => Phase::Failed(e),
+        EvaluationState::Complete => Phase::Complete,
+        EvaluationState::Waiting(w) => match w {
+            EvaluationWaiting::Memory => Phase::WaitMemory,
+            EvaluationWaiting::Register { offset } => Phase::WaitRegister { offset },
+            EvaluationWaiting::FrameBase { offset } => Phase::WaitFrameBase { offset },
+            EvaluationWaiting::Tls => Phase::WaitTls,
+            EvaluationWaiting::Cfa => Phase::WaitCfa,
+            EvaluationWaiting::AtLocation => Phase::WaitAtLocation,
+            EvaluationWaiting::EntryValue => Phase::WaitEntryValue,
+            EvaluationWaiting::ParameterRef => Phase::WaitParameterRef,
+            EvaluationWaiting::RelocatedAddress => Phase::WaitRelocatedAddress,
+            EvaluationWaiting::IndexedAddress => Phase::WaitIndexedAddress,
+            EvaluationWaiting::TypedLiteral { .. } => Phase::WaitTypedLiteral,
+            EvaluationWaiting::Convert => Phase::WaitConvert,
+            EvaluationWaiting::Reinterpret => Phase::WaitReinterpret,
+            EvaluationWaiting::WasmValue => Phase::WaitWasmValue,
+        },
+    }
+}
